@@ -401,6 +401,68 @@ def rule_e5(F):
     return r
 
 
+def rule_e6(F):
+    """Two record types unify only if they have the same field set. unify_fields looks every field of `a` up in `b`;
+    that alone accepts a ⊂ b, so a successful return must additionally be gated by something that relates the SIZE of
+    both sides: a comparison with one operand computed from a's fields and the other from b's, or an emptiness test on
+    a copy of b's fields from which the matched ones were removed."""
+    from .c08 import deps
+    r = RuleResult("C07.E6", "record unification: success is gated by a test relating the field counts of both records (a missing field is a type error)", floor=1)
+    ps = [p for p in F.paths() if p.endswith("TypeChecker::unify_fields")]
+    if not ps:
+        r.missing("TypeChecker::unify_fields")
+        return r
+    b = F.body(ps[0])
+    ls = b.mir["locals"]
+    fld = [i for i in range(1, b.mir["argc"] + 1) if "Identifier" in ls[i]["ty"] and ls[i]["ty"].startswith("&[")]
+    if len(fld) != 2:
+        r.missing("two field-list parameters of unify_fields (found %d)" % len(fld))
+        return r
+    A, B = "arg%d" % fld[0], "arg%d" % fld[1]
+    defs = mir.Defs(b)
+    dom = mir.dominators(b)
+
+    def D(op):
+        if not mir.is_place_op(op):
+            return set()
+        l = op[1][0]
+        if 1 <= l <= b.mir["argc"]:
+            return {"arg%d" % l}
+        return {x.split(".")[0] for x in deps(b, defs, l)}
+    gates = []
+    for bi, blk in enumerate(b.blocks):
+        t = blk["term"]
+        if t["k"] != "switch" or not mir.is_place_op(t["o"]):
+            continue
+        l = t["o"][1][0]
+        for d in defs.whole_defs(l):
+            if d[2] == "assign" and d[3]["rv"]["k"] == "bin" and d[3]["rv"]["op"] in ("Eq", "Ne", "Lt", "Le", "Gt", "Ge"):
+                da, db = D(d[3]["rv"]["a"]), D(d[3]["rv"]["b"])
+                if (A in da and B in db and not (B in da and A in db)) or (B in da and A in db and not (A in da and B in db)):
+                    gates.append((bi, "comparison of a quantity of the first record with one of the second (line %d)" % t.get("line", 0)))
+            if d[2] == "call" and hir.last(mir.callee_def(d[3])) in ("is_empty",) and d[3]["args"] and mir.is_place_op(d[3]["args"][0]):
+                base = d[3]["args"][0]
+                bd = D(base)
+                # a shrinking copy of the other side: some remove/retain/swap_remove/pop/drain is applied to a value with the same dependence
+                shr = [u for _, u in mir.calls(b) if hir.last(mir.callee_def(u)) in ("remove", "swap_remove", "retain", "pop", "drain") and u["args"]
+                       and mir.is_place_op(u["args"][0]) and D(u["args"][0]) == bd]
+                if shr and (A in bd) != (B in bd):
+                    gates.append((bi, "emptiness test on the not-yet-matched fields (line %d)" % t.get("line", 0)))
+    n = 0
+    for bi, st in mir.agg_sites(b, "std::option::Option"):
+        if st["rv"].get("variant") != "Some" or b.blocks[bi].get("cleanup") or st["p"] != [0]:
+            continue
+        n += 1
+        ok = [w for g, w in gates if g in dom[bi]]
+        r.inst("unify_fields Some #%d" % n, {"line": st["line"], "gated_by": ok})
+        if not ok:
+            r.bad(b.path, "Some #%d not gated by a size relation" % n, relfile(b.file), st["line"],
+                  "unify_fields can succeed without any test that relates the number of fields of the two records: a record literal that lacks a field of the expected type type-checks (and the missing field is read uninitialised)")
+    if n == 0:
+        r.missing("Some(..) return in unify_fields")
+    return r
+
+
 def rules(ctx):
     F = ctx["F"]
-    return [rule_e1(F), rule_e2(F), rule_e3(F), rule_e4(F), rule_e5(F)]
+    return [rule_e1(F), rule_e2(F), rule_e3(F), rule_e4(F), rule_e5(F), rule_e6(F)]
